@@ -30,25 +30,42 @@ struct Rec
     constexpr rt::ex::empty_env get_env() const& noexcept { return {}; }
 };
 
-template <int W, int NMAX>
+// second pool "aux" owning the first two PUs; with 4 workers its workers' global thread numbers (2, 3) differ from their pool-local ones (0, 1)
+static void aux_pool(pika::resource::partitioner& rp, pika::program_options::variables_map const&)
+{
+    rp.create_thread_pool("aux", pika::resource::scheduling_policy::local_priority_fifo);
+    int count = 0;
+    for (auto const& d : rp.sockets())
+        for (auto const& c : d.cores())
+            for (auto const& p : c.pus())
+                if (count++ < 2) rp.add_resource(p, "aux");
+}
+
+template <int W, int NMAX, int AUX = 0>
 static void bulk_prog()
 {
     static St s;
     s = St{};
     g = &s;
-    int n = pmc_choose(NMAX + 1, 0);
-    int throw_set = pmc_choose(3, 0);    // 0 none, 1 {n-1}, 2 {0, n/2}
-    int from_task = pmc_choose(2, 0);    // predecessor completes on a worker reached from a task / via transfer from main
+    // the second-pool variant has 5 threads and many more free choices: n in [1,NMAX], throwing sets {none, {n-1}}, started from main
+    int n = AUX ? 1 + pmc_choose(NMAX, 0) : pmc_choose(NMAX + 1, 0);
+    int throw_set = pmc_choose(AUX ? 2 : 3, 0);    // 0 none, 1 {n-1}, 2 {0, n/2}
+    int from_task = AUX ? 0 : pmc_choose(2, 0);    // predecessor completes on a worker reached from a task / via transfer from main
+    int hint = -1;
     int ta = throw_set == 1 ? n - 1 : throw_set == 2 ? 0 : -1, tb = throw_set == 2 ? n / 2 : -1;
     pmc_on_stuck(on_stuck);
     rt::config c;
     c.workers = W;
+    if (AUX) c.rp_callback = &aux_pool;
     rt::start(c);
     auto make = [&] {
-        return rt::ex::transfer_just(rt::ex::thread_pool_scheduler{}, 4711) | rt::ex::bulk(n, [ta, tb](int i, int& v) {
+        auto sched = AUX ? rt::ex::thread_pool_scheduler{&pika::resource::get_thread_pool("aux")} : rt::ex::thread_pool_scheduler{};
+        if (hint >= 0) sched = rt::ex::with_hint(sched, pika::execution::thread_schedule_hint(hint));
+        return rt::ex::transfer_just(sched, 4711) | rt::ex::bulk(n, [ta, tb](int i, int& v) {
             ++g->in_flight;
             if (i < 0 || i >= 8) ++g->bad; else ++g->calls[i];
             if (v != 4711) ++g->bad;
+            pmc_point("in-call");    // a call has a duration: the completion signal may not overtake it
             ++g->total;
             --g->in_flight;
             if (i == ta || i == tb) throw Thrown{i};
@@ -83,24 +100,25 @@ static void bulk_prog()
         PMC_ASSERT(s.ne == 1 && (s.err_idx == ta || s.err_idx == tb), "error-identity", "error signals %d, delivered index %d (thrown: %d, %d)", s.ne, s.err_idx, ta, tb);
         for (int i = 0; i < n; ++i) PMC_ASSERT(s.calls[i] <= 1, "call-count", "f(%d) was called %d times", i, s.calls[i]);
     }
-    pmc_outcome("n=%d throw=%d %s", n, throw_set, s.nv ? "value" : "error");
+    pmc_outcome("n=%d throw=%d hint=%d %s", n, throw_set, hint, s.nv ? "value" : "error");
 }
 
 int main(int argc, char** argv)
 {
     static const char* focus = "F-addr: the per-worker contiguous index queues of the bulk operation state, tasks_remaining, exception_thrown";
     static const pmc_spec specs[] = {
-        {"bulk_w2_n4", bulk_prog<2, 4>, 2, 3, 0.6, 0.4, 1, focus, nullptr, nullptr},
-        {"bulk_w3_n5", bulk_prog<3, 5>, 1, 2, 0.4, 0.6, 1, focus, nullptr, nullptr},
+        {"bulk_w2_n4", bulk_prog<2, 4>, 2, 3, 0.3, 0.3, 1, focus, nullptr, nullptr},
+        {"bulk_w3_n5", bulk_prog<3, 5>, 1, 2, 0.35, 0.4, 1, focus, nullptr, nullptr},
+        {"bulk_second_pool", bulk_prog<4, 2, 1>, 1, 2, 0.35, 0.3, 1, focus, nullptr, nullptr},
     };
-    static const char* assumptions[] = {"sequentially consistent interleavings only", "2-3 worker threads, n <= 5"};
+    static const char* assumptions[] = {"sequentially consistent interleavings only", "2-3 worker threads, n <= 5; a second pool of 2 workers next to a default pool of 2 (n in {1,2}, throwing sets {none, {n-1}})"};
     pmc_config cfg{};
     cfg.property_id = "C11";
-    cfg.rule = "n in [0,4] (5 on 3 workers) x throwing sets {none, {n-1}, {0,n/2}} x {started from a task, from the main thread} (data choices) x all schedules of the chunk-stealing workers within the deviation bound";
+    cfg.rule = "n in [0,4] (5 on 3 workers) x throwing sets {none, {n-1}, {0,n/2}} x {started from a task, from the main thread} (data choices) x {default pool, second pool whose global worker numbers differ from the pool-local ones} x all schedules of the chunk-stealing workers within the deviation bound";
     cfg.assumptions = assumptions;
     cfg.n_assumptions = 2;
     cfg.warmup = rt::warmup;
-    cfg.quick_budget_s = 80;
+    cfg.quick_budget_s = 120;
     cfg.thorough_budget_s = 900;
     return pmc_main(argc, argv, &cfg, specs, sizeof specs / sizeof specs[0]);
 }
